@@ -455,4 +455,163 @@ theorem count_of_len {c a b : Bytes} {N : Nat} (hc : c ≠ []) (h : Edit [c] [] 
   have : k * c.length ≤ N * c.length := by omega
   exact Nat.le_of_mul_le_mul_right this hpos
 
+/-! ### the tighter bound (review C, C04-2): one copy per OPENER (visitors that insert at `enter`: prepend_child without
+selector) resp. per CLOSER (all others) named on the path -/
+
+/-- a token that opens an element for the stage: `on_start_tag_token` is called -/
+def isOpener (t : Tok) : Bool := t.kind == .startTag || t.kind == .selfClosing
+
+/-- a token that closes an element for the stage: `on_end_tag_token` is called -/
+def isCloser (t : Tok) : Bool := t.kind == .endTag || t.kind == .selfClosing || (t.kind == .startTag && isVoid t.name)
+
+/-- the tokens at which the visitor `v` can insert a copy of its value -/
+def insTok (v : Visitor) (P : List Bytes) (t : Tok) : Bool :=
+  P.contains t.name && (if insAtEnter v then isOpener t else isCloser t)
+
+theorem insTok_of_static {v w : Visitor} (h : v.static = w.static) (P : List Bytes) (t : Tok) :
+    insTok v P t = insTok w P t := by
+  unfold insTok; rw [insAtEnter_of_static h]
+
+theorem stepTok_len2 {tk : Tokenize} (hl : Lossless tk) (ev : Bytes → Bytes → Bool) {P : List Bytes} (s : HtmlSt)
+    (out : Bytes) (t : Tok) (hP : PInv P s) :
+    (stepTok tk ev (s, out) t).1.visitor.static = s.visitor.static ∧ PInv P (stepTok tk ev (s, out) t).1 ∧
+    (ledger (stepTok tk ev (s, out) t).1 (stepTok tk ev (s, out) t).2).length ≤
+      (ledger s out).length + t.raw.length + (if insTok s.visitor P t then s.visitor.content.length else 0) := by
+  have hmemE : ∀ {s' : HtmlSt}, PInv P s' → s'.enter = some t.name → P.contains t.name = true :=
+    fun h he => by simpa using h.enter _ he
+  have hmemL : ∀ {s' : HtmlSt}, PInv P s' → s'.leave = some t.name → P.contains t.name = true :=
+    fun h he => by simpa using h.leave _ he
+  have hled : ∀ (s' : HtmlSt) (o : Bytes), (ledger s' o).length = o.length + (flat s'.stack).length := by
+    intro s' o; simp [ledger]
+  have hsum := Ke_add_Kl s.visitor
+  -- the two ways a copy can appear, in terms of `insTok`
+  have hE : isOpener t = true → (if s.enter = some t.name then Ke s.visitor else 0) ≤
+      (if insTok s.visitor P t then s.visitor.content.length else 0) := by
+    intro ho
+    by_cases he : s.enter = some t.name
+    · rw [if_pos he]
+      unfold Ke
+      by_cases hie : insAtEnter s.visitor = true
+      · have : insTok s.visitor P t = true := by
+          unfold insTok; rw [hmemE hP he, if_pos hie, ho]; rfl
+        rw [if_pos hie, if_pos this]; exact Nat.le_refl _
+      · rw [if_neg hie]; exact Nat.zero_le _
+    · rw [if_neg he]; exact Nat.zero_le _
+  have hL : ∀ s1 : HtmlSt, PInv P s1 → s1.visitor.static = s.visitor.static → isCloser t = true →
+      (if s1.leave = some t.name then Kl s1.visitor else 0) ≤
+        (if insTok s.visitor P t then s.visitor.content.length else 0) := by
+    intro s1 hP1 hst hc
+    by_cases he : s1.leave = some t.name
+    · rw [if_pos he, (K_of_static hst).2]
+      unfold Kl
+      by_cases hie : insAtEnter s.visitor = true
+      · rw [if_pos hie]; exact Nat.zero_le _
+      · have : insTok s.visitor P t = true := by
+          unfold insTok; rw [hmemL hP1 he, if_neg hie, hc]; rfl
+        rw [if_neg hie, if_pos this]; exact Nat.le_refl _
+    · rw [if_neg he]; exact Nat.zero_le _
+  -- enter and leave never both insert
+  have hEL : ∀ (a b : Nat), a ≤ (if insTok s.visitor P t then s.visitor.content.length else 0) →
+      b ≤ (if insTok s.visitor P t then s.visitor.content.length else 0) → (a = 0 ∨ b = 0) →
+      a + b ≤ (if insTok s.visitor P t then s.visitor.content.length else 0) := by
+    intro a b ha hb h0; rcases h0 with h0 | h0 <;> omega
+  have hzero : ∀ s1 : HtmlSt, s1.visitor.static = s.visitor.static →
+      (if s.enter = some t.name then Ke s.visitor else 0) = 0 ∨ (if s1.leave = some t.name then Kl s1.visitor else 0) = 0 := by
+    intro s1 hst
+    rw [(K_of_static hst).2]
+    unfold Ke Kl
+    by_cases hie : insAtEnter s.visitor = true
+    · right; rw [if_pos hie]; split <;> rfl
+    · left; rw [if_neg hie]; split <;> rfl
+  cases hk : t.kind with
+  | startTag =>
+    have hop : isOpener t = true := by simp [isOpener, hk]
+    rw [stepTok_start tk ev s out t hk]
+    obtain ⟨a1, a2, a3, a4⟩ := onStart_len s t.name t.raw hP
+    generalize onStart s t.name t.raw = p1 at a1 a2 a3 a4
+    obtain ⟨s1, d1⟩ := p1
+    simp only at a1 a2 a3 a4 ⊢
+    by_cases hv : isVoid t.name = true
+    · rw [if_pos hv]
+      have hcl : isCloser t = true := by simp [isCloser, hk, hv]
+      obtain ⟨b1, b2, b3⟩ := onEnd_len hl ev s1 t.name d1 a2
+      generalize onEnd tk ev s1 t.name d1 = p2 at b1 b2 b3
+      obtain ⟨s2, d2⟩ := p2
+      simp only at b1 b2 b3 ⊢
+      obtain ⟨c1, c2, c3⟩ := push_len s2 out d2 b2
+      refine ⟨by rw [c1]; exact b1.trans a1, c2, ?_⟩
+      rw [c3, hled, hled]
+      have := hEL _ _ (hE hop) (hL s1 a2 a1 hcl) (hzero s1 a1)
+      omega
+    · rw [if_neg hv]
+      obtain ⟨c1, c2, c3⟩ := push_len s1 out d1 a2
+      refine ⟨by rw [c1]; exact a1, c2, ?_⟩
+      rw [c3, hled, hled]
+      have := hE hop
+      omega
+  | endTag =>
+    have hcl : isCloser t = true := by simp [isCloser, hk]
+    rw [stepTok_end tk ev s out t hk]
+    obtain ⟨b1, b2, b3⟩ := onEnd_len hl ev s t.name t.raw hP
+    generalize onEnd tk ev s t.name t.raw = p2 at b1 b2 b3
+    obtain ⟨s2, d2⟩ := p2
+    simp only at b1 b2 b3 ⊢
+    obtain ⟨c1, c2, c3⟩ := push_len s2 out d2 b2
+    refine ⟨by rw [c1]; exact b1, c2, ?_⟩
+    rw [c3, hled, hled]
+    have := hL s hP rfl hcl
+    omega
+  | selfClosing =>
+    have hop : isOpener t = true := by simp [isOpener, hk]
+    have hcl : isCloser t = true := by simp [isCloser, hk]
+    rw [stepTok_self tk ev s out t hk]
+    obtain ⟨a1, a2, a3, a4⟩ := onStart_len s t.name t.raw hP
+    generalize onStart s t.name t.raw = p1 at a1 a2 a3 a4
+    obtain ⟨s1, d1⟩ := p1
+    simp only at a1 a2 a3 a4 ⊢
+    obtain ⟨b1, b2, b3⟩ := onEnd_len hl ev s1 t.name d1 a2
+    generalize onEnd tk ev s1 t.name d1 = p2 at b1 b2 b3
+    obtain ⟨s2, d2⟩ := p2
+    simp only at b1 b2 b3 ⊢
+    obtain ⟨c1, c2, c3⟩ := push_len s2 out d2 b2
+    refine ⟨by rw [c1]; exact b1.trans a1, c2, ?_⟩
+    rw [c3, hled, hled]
+    have := hEL _ _ (hE hop) (hL s1 a2 a1 hcl) (hzero s1 a1)
+    omega
+  | text =>
+    rw [stepTok_other tk ev s out t (by simp [hk, isTagKind])]
+    obtain ⟨c1, c2, c3⟩ := push_len s out t.raw hP
+    exact ⟨by rw [c1], c2, by rw [c3]; omega⟩
+  | other =>
+    rw [stepTok_other tk ev s out t (by simp [hk, isTagKind])]
+    obtain ⟨c1, c2, c3⟩ := push_len s out t.raw hP
+    exact ⟨by rw [c1], c2, by rw [c3]; omega⟩
+
+/-- **At most one copy of the value per opener (prepend_child without selector) / per closer (append_child, prepend_child
+with a selector) named on the path.** -/
+theorem fold_len2 {tk : Tokenize} (hl : Lossless tk) (ev : Bytes → Bytes → Bool) {P : List Bytes} :
+    ∀ (T : List Tok) (s : HtmlSt) (out : Bytes), PInv P s →
+      (ledger (T.foldl (stepTok tk ev) (s, out)).1 (T.foldl (stepTok tk ev) (s, out)).2).length ≤
+        (ledger s out).length + (rawsOf T).length + s.visitor.content.length * (T.filter (insTok s.visitor P)).length
+  | [], s, out, _ => by simp [rawsOf]
+  | t :: T, s, out, hP => by
+    obtain ⟨a1, a2, a3⟩ := stepTok_len2 hl ev s out t hP
+    rw [List.foldl_cons]
+    generalize stepTok tk ev (s, out) t = p at a1 a2 a3
+    obtain ⟨s1, o1⟩ := p
+    simp only at a1 a2 a3
+    have ih := fold_len2 hl ev T s1 o1 a2
+    rw [content_of_static a1] at ih
+    have hfun : insTok s1.visitor P = insTok s.visitor P := funext fun t' => insTok_of_static a1 P t'
+    rw [hfun] at ih
+    rw [rawsOf_cons, List.length_append, List.filter_cons]
+    by_cases hon : insTok s.visitor P t = true
+    · rw [if_pos hon] at a3
+      simp only [hon, if_true, List.length_cons]
+      rw [Nat.mul_succ]
+      omega
+    · rw [if_neg hon] at a3
+      simp only [hon, Bool.false_eq_true, if_false]
+      omega
+
 end Rio.Filter
